@@ -6,6 +6,7 @@ gen_doc(rng, **knobs) -> doc   (ordered dict of sections, addresses as the
 emit(doc, rng=None)   -> YAML text
 """
 import copy
+import random
 
 OS_POOL = ["linux", "windows", "bsd", "macos", "win", "linux64", "Linux",
            "os x", "x"]
@@ -98,6 +99,20 @@ def gen_doc(rng, shape=None, max_subnets=5, max_hosts=4, n_public=None,
     if n_public is None:
         n_public = rng.choice([1, 1, 1, 2, 2, 3])
     sizes = [rng.randint(1, max_hosts) for _ in range(n)]
+    r2 = random.Random(rng.getrandbits(48))
+    wide = None
+    if like is None and not asym and r2.random() < 0.05:
+        # two-digit subnet and host numbers
+        if r2.random() < 0.5:
+            n = r2.randint(10, 12)
+            sizes = [r2.randint(1, 2) for _ in range(n)]
+            wide = "subnets"
+        else:
+            n = min(n, 3)
+            sizes = [r2.randint(1, 2) for _ in range(n)]
+            sizes[r2.randrange(n)] = r2.randint(11, 13)
+            wide = "hosts"
+    uniform_hosts = like is None and r2.random() < 0.1
     if like is not None:
         # same names, number of subnets and largest subnet (= same vector
         # layout), other subnet sizes
@@ -139,6 +154,12 @@ def gen_doc(rng, shape=None, max_subnets=5, max_hosts=4, n_public=None,
     k = rng.choice([1, 1, 2, 2, 3, len(addrs)])
     k = max(1, min(k, len(addrs)))
     sens = rng.sample(addrs, k)
+    if wide == "hosts":
+        big_s = max(range(n), key=lambda i: sizes[i]) + 1
+        if (big_s, 10) not in sens:
+            sens.append((big_s, 10))       # a two-digit host number
+    elif wide == "subnets" and not any(a[0] >= 10 for a in sens):
+        sens.append((10, 0))
     doc["sensitive_hosts"] = {
         A(*a): rng.choice([100, 10, 1, 50, 0.5, 2.5, 1000, 100.0, 1.0,
                            20000000]) for a in sens}
@@ -200,6 +221,7 @@ def gen_doc(rng, shape=None, max_subnets=5, max_hosts=4, n_public=None,
     host_order = list(addrs)
     if rng.random() < 0.2:
         rng.shuffle(host_order)     # declaration order is free in the format
+    template = None
     for a in host_order:
         h = {"os": rng.choice(oss),
              "services": rng.sample(srvs, rng.randint(1, len(srvs))),
@@ -210,6 +232,18 @@ def gen_doc(rng, shape=None, max_subnets=5, max_hosts=4, n_public=None,
                 fw[SP(rng, *src)] = rng.sample(srvs,
                                                rng.randint(0, len(srvs)))
             h["firewall"] = fw
+        if uniform_hosts:
+            # every machine is installed from the same image (what the
+            # shipped 'tiny' looks like): identical configuration blocks,
+            # deny list included
+            if template is None:
+                if "firewall" not in h and r2.random() < 0.6:
+                    h["firewall"] = {
+                        SP(rng, *src): rng.sample(srvs, rng.randint(
+                            1, len(srvs)))
+                        for src in rng.sample(addrs, min(2, len(addrs)))}
+                template = copy.deepcopy(h)
+            h = copy.deepcopy(template)
         if a in sens:
             if rng.random() < 0.3:
                 h["value"] = sens_value[a]
@@ -329,6 +363,14 @@ def emit(doc, rng=None):
     if rng is not None and rng.random() < 0.5:
         lines.append("# generated by dsim.docgen")
     anchors = rng is not None and rng.random() < 0.06
+    hc = doc.get("host_configurations")
+    if rng is not None and isinstance(hc, dict) and len(hc) >= 2 and \
+            all(isinstance(h, dict) for h in hc.values()):
+        import json
+        sigs = [json.dumps(h, sort_keys=True, default=str)
+                for h in hc.values()]
+        if len(set(sigs)) * 2 <= len(sigs) and rng.random() < 0.6:
+            anchors = True        # repeated blocks are written once
     for k in keys:
         if k == "host_configurations" and anchors and \
                 isinstance(doc[k], dict) and doc[k] and \
